@@ -97,7 +97,7 @@ func (d *db) rz() *rzState { return d.aux.(*rzState) }
 
 // racing ops may run while a membership change is in flight; every other op first
 // waits for the change to settle (bounded liveness).
-var rzRacing = map[string]bool{"dupcomplete": true, "errcomplete": true, "unknownjob": true, "abort": true, "netfault": true, "clearfaults": true, "sleep": true, "await": true,
+var rzRacing = map[string]bool{"dupjoin": true, "dupcomplete": true, "errcomplete": true, "unknownjob": true, "abort": true, "netfault": true, "clearfaults": true, "sleep": true, "await": true,
 	"gate": true, "nap": true, "gatewait": true, "reportdown": true, "reportready": true, "leave": true, "back": true, "gatesettle": true}
 
 var rzReadOnly = map[string]bool{"widecheck": true, "rebuild": true, "allnodes": true, "checkowners": true, "checkplan": true, "checkplacement": true, "join": true, "remove": true, "snapowners": true}
@@ -645,6 +645,15 @@ func rzExtra(d *db, op simrt.Op) bool {
 		m := &pilosa.ResizeInstructionComplete{JobID: job, Node: nd.node(), Error: "simulated: copying remote shard failed"}
 		buf, _ := pilosa.MarshalInternalMessage(m, proto.Serializer{})
 		d.injectMessage(coord, buf, "failed completion from "+nd.id)
+	case "dupjoin": // I=[n]: gossip delivers the pending join event n more times
+		if st.pendingJoin == nil {
+			return true
+		}
+		nd := st.pendingJoin
+		for k := int64(0); k < I[0]; k++ {
+			buf, _ := pilosa.MarshalInternalMessage(&pilosa.NodeEvent{Event: pilosa.NodeJoin, Node: nd.node()}, proto.Serializer{})
+			d.injectMessage(coord, buf, "repeated join event of "+nd.id)
+		}
 	case "unknownjob":
 		m := &pilosa.ResizeInstructionComplete{JobID: 424242 + I[0], Node: coord.node()}
 		buf, _ := pilosa.MarshalInternalMessage(m, proto.Serializer{})
@@ -932,7 +941,9 @@ func genC22(r *simrt.Rand, tier string) *simrt.Plan {
 		}
 		// events racing with the job
 		for k := 0; k < r.Intn(4); k++ {
-			switch x := r.Intn(10); {
+			switch x := r.Intn(11); {
+			case x == 10:
+				ops = append(ops, simrt.Op{K: "dupjoin", I: []int64{int64(simrt.Pick(r, 1, 2, 5, 11, 14))}})
 			case x < 3:
 				ops = append(ops, simrt.Op{K: "dupcomplete", I: []int64{int64(r.Intn(5))}})
 			case x < 5:
